@@ -65,7 +65,7 @@ ALL = {
          "Every stack (plain, COBS, CRC_w, CRC_w over COBS) over every storage equals the composition of the independent COBS/CRC transformers; recording user flavours see exactly the plain encoding.",
          "Finite value corpus.", "DESIGN.md 4.C20"),
 }
-BUILT = ["C01","C02","C03","C04","C05","C06","C07","C08","C09","C10","C11","C12","C13","C14","C15","C16","C19","C20"]
+BUILT = ["C01","C02","C03","C04","C05","C06","C07","C08","C09","C10","C11","C12","C13","C14","C15","C16","C17","C18","C19","C20"]
 CLAIMED = {k: v for k, v in ALL.items() if k in BUILT}
 
 NOT_APPLICABLE = {}
